@@ -177,13 +177,32 @@ ArchCallNames(a) ==
            [] OTHER -> {} : i \in 1..Len(a.stmts)}
 
 \* "never hides a predefined name the emitted text itself relies on"
+\* A type mark is hidden only in the text that FOLLOWS the hiding declaration (`signal integer : integer;` is legal: within the
+\* declaration the predefined type is still visible; upstream test_boolean_02 does exactly that): the type marks relied on under
+\* a hiding declaration are those of later architecture declarations and of process declarations (entity ports lie outside).
+HiddenTypeMarks(D, a) ==
+  LET ent == EntOf(D, a.of)
+      portNames == IF ent.k = "none" THEN {} ELSE {ent.ports[i].n : i \in 1..Len(ent.ports)}
+      hasTy(d) == d.k \in {"signal", "constant", "variable"}
+      archTy(lo) == {a.decls[j].ty.n : j \in {q \in lo..Len(a.decls) : hasTy(a.decls[q])}}
+      procTy(s, lo) == {s.decls[j].ty.n : j \in {q \in lo..Len(s.decls) : hasTy(s.decls[q])}}
+      allProcTy == UNION {IF a.stmts[i].k = "process" THEN procTy(a.stmts[i], 1) ELSE {} : i \in 1..Len(a.stmts)}
+      archLits(i) == IF a.decls[i].k = "enum" THEN {a.decls[i].lits[j] : j \in 1..Len(a.decls[i].lits)} ELSE {}
+  IN  \* hidden by a port of the entity: every type mark of the architecture
+      (portNames \cap (archTy(1) \cup allProcTy))
+      \* hidden by an architecture declaration: the type marks of the declarations after it and of all processes
+      \cup UNION {({a.decls[i].n} \cup archLits(i)) \cap (archTy(i + 1) \cup allProcTy) : i \in 1..Len(a.decls)}
+      \* hidden by a process declaration: the type marks of the later declarations of that process
+      \cup UNION {IF a.stmts[i].k # "process" THEN {}
+                  ELSE UNION {{a.stmts[i].decls[j].n} \cap procTy(a.stmts[i], j + 1) : j \in 1..Len(a.stmts[i].decls)} : i \in 1..Len(a.stmts)}
+
 HidesPredefined(D) ==
   UNION {LET a == Archs(D)[k]
              declared == {ArchRegionNames(D, a)[i] : i \in 1..Len(ArchRegionNames(D, a))}
                          \cup UNION {IF a.stmts[i].k = "process" THEN ProcLocal(a.stmts[i]) ELSE {} : i \in 1..Len(a.stmts)}
-             \* names the text relies on as predefined: type marks, and names in call position
-             relied == (TypeNamesUsed(D, a) \cup ArchCallNames(a) \cup ({"true", "false"} \cap ArchUsedNames(a))) \cap Predefined
-         IN {<<a.of, n>> : n \in declared \cap relied} : k \in 1..Len(Archs(D))}
+             \* names the text relies on as predefined: names in call position, true / false, and hidden type marks
+             relied == (ArchCallNames(a) \cup ({"true", "false"} \cap ArchUsedNames(a))) \cap Predefined
+         IN {<<a.of, n>> : n \in (declared \cap relied) \cup (HiddenTypeMarks(D, a) \cap Predefined)} : k \in 1..Len(Archs(D))}
 
 \* every name used is declared and visible ("the same object is always referred to by the same name")
 Undeclared(D) ==
